@@ -178,6 +178,60 @@ Proof.
   exists z. pose proof (arith_some _ _ _ _ _ _ Ez) as [? ?]. auto.
 Qed.
 
+(* Bytes: slice returns exactly the requested window or fails; concat appends *)
+Lemma slice_window_length (x : list Z) i n :
+  0 <= i -> 0 <= n -> i + n <= Z.of_nat (length x) ->
+  Z.of_nat (length (firstn (Z.to_nat n) (skipn (Z.to_nat i) x))) = n.
+Proof.
+  intros Hi Hn Hb. rewrite firstn_length, skipn_length. lia.
+Qed.
+
+Lemma eval_slice_exact f a st ln s v s' t :
+  eval P ce (S f) (ESlice a st ln) s = Ok v s' t ->
+  exists x i n s1 s2 t1 t2 t3,
+    eval P ce f a s = Ok (VBytes x) s1 t1 /\ eval P ce f st s1 = Ok (VInt i) s2 t2 /\
+    eval P ce f ln s2 = Ok (VInt n) s' t3 /\ t = t1 ++ t2 ++ t3 /\
+    0 <= i /\ 0 <= n /\ i + n <= Z.of_nat (length x) /\
+    v = VBytes (firstn (Z.to_nat n) (skipn (Z.to_nat i) x)) /\
+    Z.of_nat (length (firstn (Z.to_nat n) (skipn (Z.to_nat i) x))) = n.
+Proof.
+  cbn [eval]. intros H.
+  apply bind_ok in H. destruct H as (va & s1 & t1 & t2 & Ha & H & ->).
+  apply bind_ok in H. destruct H as (vs & s2 & t2' & t3 & Hs & H & ->).
+  apply bind_ok in H. destruct H as (vl & s3 & t3' & t4 & Hl & H & ->).
+  destruct va as [| | | |x]; try discriminate.
+  destruct vs as [i| | | |]; try discriminate. destruct vl as [n| | | |]; try discriminate.
+  destruct ((0 <=? i) && (0 <=? n) && (i + n <=? Z.of_nat (length x))) eqn:E; try discriminate.
+  apply ret_ok in H. destruct H as (-> & -> & ->).
+  assert (0 <= i /\ 0 <= n /\ i + n <= Z.of_nat (length x)) as (Hi & Hn & Hb) by lia.
+  exists x, i, n, s1, s2, t1, t2', t3'. repeat split; auto.
+  - rewrite app_nil_r. reflexivity.
+  - apply slice_window_length; auto.
+Qed.
+
+Lemma eval_slice_out_of_range f a st ln s x i n s1 s2 s3 t1 t2 t3 :
+  eval P ce f a s = Ok (VBytes x) s1 t1 -> eval P ce f st s1 = Ok (VInt i) s2 t2 ->
+  eval P ce f ln s2 = Ok (VInt n) s3 t3 ->
+  ~ (0 <= i /\ 0 <= n /\ i + n <= Z.of_nat (length x)) ->
+  eval P ce (S f) (ESlice a st ln) s = Fail Revert.
+Proof.
+  intros Ha Hs Hl Hb. cbn [eval]. rewrite Ha. cbn [bind]. rewrite Hs. cbn [bind]. rewrite Hl. cbn [bind].
+  destruct ((0 <=? i) && (0 <=? n) && (i + n <=? Z.of_nat (length x))) eqn:E; [exfalso; apply Hb; lia | reflexivity].
+Qed.
+
+Lemma eval_concat_exact f a b s v s' t :
+  eval P ce (S f) (EConcat a b) s = Ok v s' t ->
+  exists x y s1 t1 t2, eval P ce f a s = Ok (VBytes x) s1 t1 /\ eval P ce f b s1 = Ok (VBytes y) s' t2 /\
+    t = t1 ++ t2 /\ v = VBytes (x ++ y).
+Proof.
+  cbn [eval]. intros H.
+  apply bind_ok in H. destruct H as (va & s1 & t1 & t2 & Ha & H & ->).
+  apply bind_ok in H. destruct H as (vb & s2 & t2' & t3 & Hb & H & ->).
+  destruct va as [| | | |x]; try discriminate. destruct vb as [| | | |y]; try discriminate.
+  apply ret_ok in H. destruct H as (-> & -> & ->).
+  exists x, y, s1, t1, t2'. repeat split; auto. rewrite app_nil_r. reflexivity.
+Qed.
+
 (* ------------------------------------------------------------------ C08: once, in order *)
 (* two-operand forms: left operand, then right operand, each exactly once *)
 Definition two_operand (e : expr) : option (expr * expr) :=
